@@ -45,6 +45,7 @@ Definition assumed_fresh : list string := ["os/exec.Command"; "os/exec.CommandCo
 Definition map_ranges : list (string * string * string * Z * string) :=
   [("internal/resolver", "resolve.go", "*ResolvedProgram.IterFuncs", 1%Z, "for name, info := range r.resolver.funcInfo { f(name, info) }");
    ("internal/resolver", "resolve.go", "*ResolvedProgram.IterVars", 1%Z, "for name, info := range r.resolver.varInfo[funcName] { f(name, info) }");
+   ("internal/resolver", "resolve.go", "*resolver.numVars", 1%Z, "for _, infos := range r.varInfo { n += len(infos) }");
    ("internal/resolver", "resolve.go", "Resolve", 1%Z, "for name := range config.Funcs { nativeNames = append(nativeNames, name) }");
    ("internal/resolver", "resolve.go", "Resolve", 2%Z, "for name := range callGraph.funcs { if _, ok := called[name]; !ok { uncalled = append(uncalled, name) } }");
    ("internal/resolver", "resolve.go", "Resolve", 3%Z, "for funcName, info := range funcInfo { if info.Native { continue } varInfo[funcName] = make(map[string]VarInfo) for _, param := range info.Params { varInfo[funcName][param] = VarInfo{} } }");
